@@ -87,6 +87,11 @@ void Timer::Skip(u64 ticks) {
     if (pause || count_mode == CountMode::EventCount)
         return;
 
+    // Skipping zero cycles must be a no-op: without this the counter==0 path below computes
+    // reset - (0 - 1) = reset + 1, and the MMIO mirror is refreshed although no cycle elapsed.
+    if (ticks == 0)
+        return;
+
     if (counter == 0) {
         u32 reset;
         if (count_mode == CountMode::AutoRestart) {
